@@ -69,6 +69,20 @@ class Context:
         self._globals["RangeError"] = self._create_error_constructor("RangeError")
         self._globals["URIError"] = self._create_error_constructor("URIError")
         self._globals["EvalError"] = self._create_error_constructor("EvalError")
+        # Native error prototypes inherit from Error.prototype
+        # (so `new TypeError() instanceof Error` holds)
+        base_error_prototype = self._globals["Error"].get("prototype")
+        for error_name in (
+            "TypeError",
+            "SyntaxError",
+            "ReferenceError",
+            "RangeError",
+            "URIError",
+            "EvalError",
+        ):
+            self._globals[error_name].get("prototype")._prototype = (
+                base_error_prototype
+            )
 
         # Math object
         self._globals["Math"] = self._create_math_object()
